@@ -16,6 +16,7 @@ mod iter;
 mod tensor;
 mod rand;
 mod geometry;
+mod f80;
 
 use util::arg_value;
 
@@ -55,6 +56,7 @@ fn main() {
         ("tensor", "record") => tensor::record(seed, &tier, &out),
         ("rand", "record") => rand::record(seed, &tier, &out),
         ("geometry", "record") => geometry::record(seed, &tier, &out),
+        ("f80", "record") => f80::record(seed, &tier, &out),
         ("mint", "record") => mint::record(seed, &tier, &out),
         ("writer", "replay") => writer::replay(&args[3], &out),
         ("writer", "record") => writer::record(seed, &tier, &out),
